@@ -17,6 +17,8 @@ Definition lphase (p : pc) : option nat :=
   | DLock _ | DDel _ | DUnlock _ | DDone _ => Some 2
   | _ => Some 0
   end.
+Definition lwait_of (p : pc) : option nat :=
+  match p with LHitUnlock c | LWait c => Some c | _ => None end.
 Definition is_fne (p : pc) : bool := match p with FnE _ => true | _ => false end.
 
 Record LI (s : state) : Prop := mkLI {
@@ -27,13 +29,15 @@ Record LI (s : state) : Prop := mkLI {
   l_map' : forall t c, linmap_of (t_pc (ts s t)) = Some c -> alookup Nat.eqb (t_key (ts s t)) (calls s) = Some c;
   l_put : forall t, t_pc (ts s t) = LPut -> alookup Nat.eqb (t_key (ts s t)) (calls s) = None;
   l_own : forall t c, lown_of (t_pc (ts s t)) = Some c -> cre s c = t /\ c < next s /\ wg s c = 1;
+  l_wait : forall t c, lwait_of (t_pc (ts s t)) = Some c ->
+                       c < next s /\ (wg s c = 0 \/ lown_of (t_pc (ts s (cre s c))) = Some c);
   l_pan : panicked s = false
 }.
 
 Record LR (m : lc_mon) (s : state) : Prop := mkLR {
   lr_cur : forall t, l_cur m t = match lphase (t_pc (ts s t)) with
                                  | None => None
-                                 | Some ph => Some (mkcur (t_key (ts s t)) 0 ph (if Nat.eqb ph 2 then t_val (ts s t) else 0))
+                                 | Some ph => Some (mkcur (t_key (ts s t)) 0 (cuex ph (t_val (ts s t))) (if Nat.eqb ph 2 then t_val (ts s t) else 0))
                                  end;
   lr_run : forall k, In k (l_running m) -> exists u, is_fne (t_pc (ts s u)) = true /\ t_key (ts s u) = k
 }.
@@ -48,7 +52,7 @@ Proof.
   - exists lc_mon0. split; [reflexivity|]. constructor; simpl; intros; try discriminate; auto. contradiction.
 Qed.
 
-Ltac lsp := cbn [setpc t_pc t_key t_val t_gate t_todo t_res linmap_of lown_of lholds lphase is_fne].
+Ltac lsp := cbn [setpc t_pc t_key t_val t_gate t_todo t_res linmap_of lown_of lholds lphase is_fne lwait_of].
 
 Lemma linmap_own p c : linmap_of p = Some c -> lown_of p = Some c.
 Proof. destruct p; simpl; congruence. Qed.
@@ -73,12 +77,14 @@ Lemma LI_pcstep s s' t :
   (t_key (ts s' t) = t_key (ts s t) \/ (lown_of p' = None /\ p' <> LPut)) ->
   linmap_of p' = linmap_of p ->
   lown_of p' = lown_of p ->
+  (forall c, lwait_of p' = Some c -> lwait_of p = Some c \/
+             (alookup Nat.eqb (t_key (ts s t)) (calls s) = Some c /\ lown_of p = None)) ->
   (p' = LPut -> p = LPut \/ alookup Nat.eqb (t_key (ts s t)) (calls s) = None) ->
   ((lholds p' = true /\ lock s' = Some t /\ (lock s = None \/ lock s = Some t)) \/
    (lholds p' = false /\ ((lholds p = true /\ lock s' = None) \/ (lholds p = false /\ lock s' = lock s)))) ->
   LI s'.
 Proof.
-  intros [L1 L2 M M' P O Pn] Ec Ew En Ecr Ep Ets p p' Hkey Him Hown Hput Hlock.
+  intros [L1 L2 M M' P O W Pn] Ec Ew En Ecr Ep Ets p p' Hkey Him Hown Hwait Hput Hlock.
   constructor; rewrite ?Ec, ?Ew, ?En, ?Ecr, ?Ep; auto.
   - intros u Hu. destruct (Nat.eq_dec u t) as [->|Hne].
     + fold p' in Hu. destruct Hlock as [(A & B & C)|(A & _)]; [congruence|congruence].
@@ -108,6 +114,20 @@ Proof.
   - intros u c. destruct (Nat.eq_dec u t) as [->|Hne].
     + fold p'. intro A. apply O. fold p. congruence.
     + rewrite (Ets _ Hne). auto.
+  - intros u c. destruct (Nat.eq_dec u t) as [->|Hne].
+    + fold p'. intro A. destruct (Hwait _ A) as [B|(B & D)].
+      * destruct (W t c B) as (W1 & W4). split; auto.
+        destruct W4 as [W4|W4]; auto. right.
+        destruct (Nat.eq_dec (cre s c) t) as [E|Hne2]; [|rewrite (Ets _ Hne2); assumption].
+        rewrite E in *. fold p in W4. fold p'. congruence.
+      * destruct (M _ _ B) as [M1 M2]. pose proof (linmap_own _ _ M1) as Ho.
+        destruct (O _ _ Ho) as (O1 & O2 & O3).
+        assert (cre s c <> t) by (intro E; rewrite E in Ho; fold p in Ho; congruence).
+        split; auto. right. rewrite (Ets _ H). assumption.
+    + rewrite (Ets _ Hne). intro A. destruct (W u c A) as (W1 & W4). split; auto.
+      destruct W4 as [W4|W4]; auto. right.
+      destruct (Nat.eq_dec (cre s c) t) as [E|Hne2]; [|rewrite (Ets _ Hne2); assumption].
+      rewrite E in *. fold p in W4. fold p'. congruence.
 Qed.
 
 Ltac lpcstep HI t Hpc :=
@@ -119,7 +139,8 @@ Ltac lfin HI t Hpc :=
             | left; repeat split; auto
             | (let L := fresh "L" in pose proof (l_lock1 _ HI t) as L; rewrite Hpc in L; simpl in L; specialize (L eq_refl);
                first [left; repeat split; auto | right; split; [reflexivity|]; left; auto ])
-            | right; split; [reflexivity|]; right; auto ].
+            | right; split; [reflexivity|]; right; auto
+            | (let c := fresh "c" in let Hc := fresh "Hc" in intros c Hc; injection Hc as <-; first [left; reflexivity | right; split; auto]) ].
 
 Lemma lstep_I l s s' : LI s -> step l s = Some s' -> LI s'.
 Proof.
@@ -136,7 +157,7 @@ Proof.
   - (* LHitUnlock *) inv_step Hs. lpcstep HI t Hpc; lfin HI t Hpc.
   - (* LWait *) destruct (Nat.eqb (wg s c) 0); [|discriminate]. inv_step Hs. lpcstep HI t Hpc; lfin HI t Hpc.
   - (* LPut *) inv_step Hs.
-    pose proof HI as [L1 L2 M M' P O Pn].
+    pose proof HI as [L1 L2 M M' P O W Pn].
     assert (Hlt : lock s = Some t) by (apply L1; rewrite Hpc; reflexivity).
     assert (HP : alookup Nat.eqb (t_key (ts s t)) (calls s) = None) by (apply P; assumption).
     assert (Hmapc : forall k c, alookup Nat.eqb k (calls s) = Some c -> c < next s /\ cre s c <> t).
@@ -156,12 +177,15 @@ Proof.
     + intros u c. case_t u t; lsp.
       * intro E'; injection E' as <-. rewrite !upd_same. auto.
       * intro A. destruct (O _ _ A) as (O1 & O2 & O3). rewrite !upd_other by lia. auto.
+    + intros u c. case_t u t; lsp; [discriminate|]. intro A. destruct (W _ _ A) as (W1 & W4).
+      rewrite !(upd_other _ (next s)) by lia. split; [lia|].
+      destruct W4 as [W4|W4]; auto. right. case_t (cre s c) t; [rewrite Hpc in W4; discriminate|assumption].
   - (* LMissUnlock *) inv_step Hs. lpcstep HI t Hpc; lfin HI t Hpc.
   - (* FnB *) inv_step Hs. lpcstep HI t Hpc; lfin HI t Hpc.
   - (* FnE *) destruct (gate_open (open s) (t_gate (ts s t))); [|discriminate]. inv_step Hs. lpcstep HI t Hpc; lfin HI t Hpc.
   - (* DLock *) destruct (lock s) eqn:Hl; [discriminate|]. inv_step Hs. lpcstep HI t Hpc; lfin HI t Hpc.
   - (* DDel *) inv_step Hs.
-    pose proof HI as [L1 L2 M M' P O Pn].
+    pose proof HI as [L1 L2 M M' P O W Pn].
     assert (Hlt : lock s = Some t) by (apply L1; rewrite Hpc; reflexivity).
     assert (Hmt : alookup Nat.eqb (t_key (ts s t)) (calls s) = Some c) by (apply M'; rewrite Hpc; reflexivity).
     constructor; cbn [lock calls wg next open ts trace panicked cre]; auto.
@@ -176,9 +200,11 @@ Proof.
       apply E. apply (l_unique s u t c' c HI A); [rewrite Hpc; reflexivity|assumption].
     + intros u. case_t u t; lsp; [discriminate|]. intro A. assert (lock s = Some u) by (apply L1; rewrite A; reflexivity). congruence.
     + intros u c'. case_t u t; lsp; [|apply O]. intro A. apply O. rewrite Hpc. assumption.
+    + intros u c'. case_t u t; lsp; [discriminate|]. intro A. destruct (W _ _ A) as (W1 & W4).
+      split; auto. destruct W4 as [W4|W4]; auto. right. case_t (cre s c') t; [rewrite Hpc in W4; lsp; assumption|assumption].
   - (* DUnlock *) inv_step Hs. lpcstep HI t Hpc; lfin HI t Hpc.
   - (* DDone *) inv_step Hs.
-    pose proof HI as [L1 L2 M M' P O Pn].
+    pose proof HI as [L1 L2 M M' P O W Pn].
     destruct (O t c) as (Oc1 & Oc2 & Oc3); [rewrite Hpc; reflexivity|].
     constructor; cbn [lock calls wg next open ts trace panicked cre]; auto.
     + intros u. case_t u t; lsp; [discriminate|auto].
@@ -188,6 +214,11 @@ Proof.
     + intros u. case_t u t; lsp; [discriminate|apply P].
     + intros u c'. case_t u t; lsp; [discriminate|]. intro A. destruct (O _ _ A) as (O1 & O2 & O3).
       rewrite upd_other by congruence. auto.
+    + intros u c'. case_t u t; lsp; [discriminate|]. intro A. destruct (W _ _ A) as (W1 & W4).
+      split; auto. destruct (Nat.eq_dec c' c) as [->|Hc].
+      * left. rewrite upd_same. lia.
+      * rewrite upd_other by assumption. destruct W4 as [W4|W4]; auto. right.
+        case_t (cre s c') t; [rewrite Hpc in W4; simpl in W4; congruence|assumption].
     + rewrite Pn, Oc3. reflexivity.
 Qed.
 
@@ -258,8 +289,8 @@ Proof.
   - (* FnE *) destruct (gate_open (open s) (t_gate (ts s t))); [|discriminate]. inv_step Hs.
     destruct HR as [RC RR]. pose proof (RC t) as RCt. rewrite Hpc in RCt. simpl in RCt.
     eexists. split.
-    { cbn [trace]. simpl rev. rewrite mon_run_app, Hm. simpl. unfold lc_mon_step. cbn [e_t e_k e_a e_b]. rewrite RCt.
-      cbn [cu_key cu_ex cu_inv]. rewrite Nat.eqb_refl. simpl. reflexivity. }
+    { cbn [trace]. simpl rev. rewrite mon_run_app, Hm. simpl. unfold lc_mon_step. cbn [e_t e_k e_a e_b e_c]. rewrite RCt.
+      cbn [cu_key cu_ex cu_inv]. rewrite Nat.eqb_refl, end_ex_pan, end_val_pan. simpl. reflexivity. }
     constructor; cbn [lock calls wg next open ts trace panicked cre l_cur l_running].
     + intros u. case_t u t; lsp; [reflexivity|apply RC].
     + intros k Hin. apply filter_In in Hin as [Hin Hk]. destruct (RR _ Hin) as (u & A & B). exists u.
@@ -271,7 +302,8 @@ Proof.
     destruct HR as [RC RR]. pose proof (RC t) as RCt. rewrite Hpc in RCt. simpl in RCt.
     eexists. split.
     { cbn [trace]. simpl rev. rewrite mon_run_app, Hm. simpl. unfold lc_mon_step. cbn [e_t e_k e_a e_b e_c]. rewrite RCt.
-      cbn [cu_key cu_ex cu_inv cu_val]. rewrite !Nat.eqb_refl. simpl. reflexivity. }
+      cbn [cu_key cu_ex cu_inv cu_val]. destruct (cuex_ret (t_val (ts s t))) as [CR1 CR2].
+      rewrite !Nat.eqb_refl, CR1, CR2. simpl. reflexivity. }
     constructor; cbn [lock calls wg next open ts trace panicked cre l_cur l_running].
     + intros u. case_t u t; lsp; [reflexivity|apply RC].
     + intros k Hin. destruct (RR _ Hin) as (u & A & B). exists u. case_t u t; [rewrite Hpc in A; discriminate|auto].
@@ -300,3 +332,38 @@ Lemma lc_exclusive_state scripts sched t u c d :
   linmap_of (t_pc (ts s t)) = Some c -> linmap_of (t_pc (ts s u)) = Some d ->
   t_key (ts s t) = t_key (ts s u) -> t = u.
 Proof. intros s; subst s. destruct (lrun_Inv scripts sched) as [HI _]. apply l_unique; assumption. Qed.
+
+(* ---- panicking user functions (scripted value 0) ---- *)
+Lemma lc_cleanup_unconditional s t c :
+  (t_pc (ts s t) = FnE c -> gate_open (open s) (t_gate (ts s t)) = true ->
+     exists s', step (Thr t) s = Some s' /\ t_pc (ts s' t) = DLock c) /\
+  (t_pc (ts s t) = DLock c -> lock s = None -> exists s', step (Thr t) s = Some s' /\ t_pc (ts s' t) = DDel c) /\
+  (t_pc (ts s t) = DDel c -> exists s', step (Thr t) s = Some s' /\ t_pc (ts s' t) = DUnlock c /\
+     alookup Nat.eqb (t_key (ts s t)) (calls s') = None) /\
+  (t_pc (ts s t) = DUnlock c -> exists s', step (Thr t) s = Some s' /\ t_pc (ts s' t) = DDone c /\ lock s' = None) /\
+  (t_pc (ts s t) = DDone c -> exists s', step (Thr t) s = Some s' /\ t_pc (ts s' t) = Idle /\ wg s' c = wg s c - 1).
+Proof.
+  repeat split; intros Hpc; unfold step; rewrite Hpc.
+  - intros ->. eexists. split; [reflexivity|]. cbn [ts]. rewrite upd_same. reflexivity.
+  - intros ->. eexists. split; [reflexivity|]. cbn [ts]. rewrite upd_same. reflexivity.
+  - eexists. split; [reflexivity|]. cbn [ts calls]. rewrite upd_same. split; [reflexivity|apply alookup_aremove_eq].
+  - eexists. split; [reflexivity|]. cbn [ts lock]. rewrite upd_same. split; reflexivity.
+  - eexists. split; [reflexivity|]. cbn [ts wg]. rewrite !upd_same. split; reflexivity.
+Qed.
+
+(* once the call holding the key is gone (returned or unwound by a panic) the key is free: the
+   threads waiting for it can retry, and no entry for it is left, so one of them executes next *)
+Lemma lc_panic_safe scripts sched :
+  let s := run step sched (init scripts) in
+  (forall u c, t_pc (ts s u) = LWait c -> lown_of (t_pc (ts s (cre s c))) <> Some c ->
+               exists s', step (Thr u) s = Some s' /\ t_pc (ts s' u) = LLock) /\
+  (forall k c, alookup Nat.eqb k (calls s) = Some c -> lown_of (t_pc (ts s (cre s c))) = Some c).
+Proof.
+  intros s; subst s. set (s := run step sched (init scripts)).
+  assert (HI : LI s) by apply lrun_Inv. clearbody s. split.
+  - intros u c Hpc Hgone.
+    assert (Hw : lwait_of (t_pc (ts s u)) = Some c) by (rewrite Hpc; reflexivity).
+    destruct (l_wait _ HI u c Hw) as (_ & [W|W]); [|contradiction].
+    unfold step. rewrite Hpc, W. simpl. eexists. split; [reflexivity|]. cbn [ts]. rewrite upd_same. reflexivity.
+  - intros k c Hk. destruct (l_map _ HI _ _ Hk) as [A _]. apply linmap_own. assumption.
+Qed.
